@@ -2697,6 +2697,37 @@ func (e *Engine) intrinsicMethod(st *State, f *Frame, x *ssa.Call, recv IfaceV, 
 		f.env[x] = c64(reflectKind(inner.T))
 		return true
 	}
+	if recv.T == e.reflectTok && name == "Elem" {
+		// reflect.Type.Elem: the type token of the element type (the token carries only a type)
+		inner := recv.V.(IfaceV)
+		var et types.Type
+		switch u := inner.T.Underlying().(type) {
+		case *types.Pointer:
+			et = u.Elem()
+		case *types.Slice:
+			et = u.Elem()
+		case *types.Array:
+			et = u.Elem()
+		case *types.Map:
+			et = u.Elem()
+		default:
+			panic("reflect.Type.Elem of a type without element type (the real call panics)")
+		}
+		f.env[x] = IfaceV{T: e.reflectTok, V: IfaceV{T: et}}
+		return true
+	}
+	if recv.T == e.reflectTok && name == "Implements" && len(x.Call.Args) == 1 {
+		inner := recv.V.(IfaceV)
+		arg, _ := e.val(st, f, x.Call.Args[0]).(IfaceV)
+		if arg.T == e.reflectTok {
+			if ui, ok := arg.V.(IfaceV); ok && ui.T != nil {
+				if it, isIface := ui.T.Underlying().(*types.Interface); isIface && inner.T != nil && e.profileOf(inner.T) == nil {
+					f.env[x] = BoolC(e.implements(inner.T, it))
+					return true
+				}
+			}
+		}
+	}
 	return false
 }
 
